@@ -20,3 +20,24 @@ pub fn fill_rgb(width: u16, height: u16, y: &[u8], u: &[u8], v: &[u8], buf: &mut
 pub fn fill_rgba(width: u16, height: u16, y: &[u8], u: &[u8], v: &[u8], buf: &mut [u8]) {
     Frame::verif_from_planes(width, height, y, u, v).fill_rgba(buf);
 }
+
+/// The alpha application loop of `WebPDecoder::read_image` / `read_frame` (decoder.rs), on a caller-supplied RGBA
+/// buffer: `filter` 0..3 = none / horizontal / vertical / gradient, `data` = the un-compressed ALPH payload.
+pub fn apply_alpha(width: u16, height: u16, filter: u8, data: &[u8], buf: &mut [u8]) {
+    use crate::extended::{get_alpha_predictor, FilteringMethod};
+    let filtering_method = match filter {
+        0 => FilteringMethod::None,
+        1 => FilteringMethod::Horizontal,
+        2 => FilteringMethod::Vertical,
+        _ => FilteringMethod::Gradient,
+    };
+    for y in 0..height {
+        for x in 0..width {
+            let predictor: u8 =
+                get_alpha_predictor(x.into(), y.into(), width.into(), filtering_method, buf);
+            let alpha_index = usize::from(y) * usize::from(width) + usize::from(x);
+            let buffer_index = alpha_index * 4 + 3;
+            buf[buffer_index] = predictor.wrapping_add(data[alpha_index]);
+        }
+    }
+}
